@@ -36,7 +36,7 @@ fn type_rejected(t: &str) -> bool {
 }
 
 const KEYS: [&str; 14] = ["", " ", "\t\n", "_x", " _x", "\u{3000}_", "x_", "a", "a b", "é", "\u{2003}", "\u{200b}", " k ", "__"];
-const TYPES: [&str; 9] = ["", "a", " a ", "ab", "é", "\u{3000}a", " ab ", "_a", "a\u{a0}"];
+const TYPES: [&str; 12] = ["", "a", " a ", "ab", "é", "\u{3000}a", " ab ", "_a", "a\u{a0}", "wasm-ab", "wasm", "transfer"];
 const VALUES: [&str; 3] = ["", " ", "v"];
 
 #[derive(Clone, Copy, Debug)]
